@@ -65,8 +65,7 @@ earlier in the same stream. -/
 /-- **C11, stream clause, every source tree, all four modes** (`columns × final_source`).  Hypotheses = the property's
 quantifier: attached maps reference existing sources and names (`IdxHyp`: "consistent leaf maps"), and so do the maps an earlier
 call left in the caches of this tree (`StoreIdx`; vacuous on cold caches); distinct CachedSource nodes own distinct caches.
-PARTIAL in one place: for a SourceMapSource *with an inner map* (the combinator of C09) the clause is a hypothesis (inside
-`IdxHyp`), decided by correspondence + oracle. -/
+A SourceMapSource *with an inner map* (the combinator of C09) is covered like every other node (`c11_combined_decl`). -/
 theorem c11_stream_decl (s : Src) (o : Opts) (σ : Store) (hp : s.IdxHyp) (hn : s.ids.Nodup) (hs : StoreIdx σ s.cachedNodes) :
     DeclOK 0 0 (s.stream o σ).1.evs := Src.stream_declOK s o σ hp hn hs
 
@@ -82,6 +81,13 @@ theorem c11_replace_decl (sorted : List Repl) (inner : SResult) (h : DeclOK 0 0 
 /-- the map-driven splitters, all four modes, for every map that references existing sources / names -/
 theorem c11_sourcemap_decl (t : Text) (sm : SMap) (o : Opts) (h : MapIdxOK sm) : DeclOK 0 0 (streamSM t sm o).evs :=
   streamSM_declOK t sm o h
+
+/-- the combinator (a SourceMapSource with an inner map), all four modes: its nine translation tables keep "announced densely,
+once, before use" whenever the outer and the inner map reference existing entries of their own tables.  The proof is the table
+invariant `KInv` (CombTables.lean); it needs the de-duplication key of the inner source to be its name (fix F15) -/
+theorem c11_combined_decl (t : Text) (sm : SMap) (n : Text) (os : Option Text) (im : SMap) (rm : Bool) (o : Opts)
+    (h1 : MapIdxOK sm) (h2 : MapIdxOK im) : DeclOK 0 0 (streamCombined t sm n os im rm o).evs :=
+  streamCombined_declOK t sm n os im rm o h1 h2
 
 /-! ## the map clause: indices inside the tables -/
 
